@@ -80,6 +80,7 @@ func collectAddressFilters(q interface {
 }) ([]string, bool) {
 	var addresses []string
 	var needSegments bool
+	var unknown bool
 	q.UseFilter("address", func(value any) bool {
 		switch v := value.(type) {
 		case string:
@@ -87,12 +88,28 @@ func collectAddressFilters(q interface {
 			if isPartialAddress(v) {
 				needSegments = true
 			}
+		case []any:
+			// $in operator passes arrays of exact addresses: they belong to the
+			// filter pushed into the lateral join as much as the others, or the
+			// join would drop the accounts only the $in selects
+			for _, item := range v {
+				if address, ok := item.(string); ok {
+					addresses = append(addresses, address)
+				} else {
+					unknown = true
+				}
+			}
+		case []string:
+			addresses = append(addresses, v...)
 		default:
-			// $in operator passes arrays — these are always exact addresses,
-			// not partial, so we skip them (no GIN index optimization possible).
+			unknown = true
 		}
 		return false
 	})
+	if unknown {
+		// a value we cannot turn into a condition: push nothing
+		return nil, needSegments
+	}
 	return addresses, needSegments
 }
 
